@@ -152,13 +152,17 @@ static void *reader_rw(void *p)
 				}
 			snprintf(buf + o, sizeof(buf) - o, "]}\n");
 		} else {
+			/* one enumeration call per read: each for_each call takes the table lock on its own */
 			unsigned long long mask = 0;
+			int fam = (s >> 20) & 1 ? 6 : 4;
 
-			pfx_table_for_each_ipv4_record(&pfxt, enum_cb, &mask);
-			pfx_table_for_each_ipv6_record(&pfxt, enum_cb, &mask);
+			if (fam == 4)
+				pfx_table_for_each_ipv4_record(&pfxt, enum_cb, &mask);
+			else
+				pfx_table_for_each_ipv6_record(&pfxt, enum_cb, &mask);
 			long c1 = atomic_load(&counter);
 
-			int o = snprintf(buf, sizeof(buf), "{\"e\":\"renum\",\"rd\":%d,\"c0\":%ld,\"c1\":%ld,\"idx\":[", a->id, c0, c1);
+			int o = snprintf(buf, sizeof(buf), "{\"e\":\"renum\",\"rd\":%d,\"c0\":%ld,\"c1\":%ld,\"f\":%d,\"idx\":[", a->id, c0, c1, fam);
 			for (int u = 0, first = 1; u < NPFX; u++)
 				if (mask & (1ull << u)) {
 					o += snprintf(buf + o, sizeof(buf) - o, "%s%d", first ? "" : ",", u + 1);
